@@ -74,9 +74,18 @@ TEvent == /\ E.e \in (Callbacks \cup {"Result"}) /\ Step /\ UNCHANGED cur
                      /\ live' = (ok /\ E.e # "Result")
                      /\ ok \/ Bad(IF ~ProtoEnabled(st, ev) THEN Why(E)
                                   ELSE IF ~AvailOK(E) THEN "partial-vector-reported-complete" ELSE "suffix-beyond-stated-length")
+\* the library's own handler (NLSolver::ReadSolution for a loaded model of the declared size): whatever the file, the
+\* returned solution has a primal vector with one entry per variable or none at all, never more duals than the file
+\* may hold for this model, variable suffixes of the model's length (a file without an objno line gives a solution
+\* without a solve code, which NLSolution reports as "nothing obtained" without any error: not judged)
+TEasy == /\ E.e = "Easy" /\ Step /\ UNCHANGED <<cur, st, k>> /\ live' = FALSE
+         /\ LET wrong == (IF E.nx \in {0, cur.nv} THEN {} ELSE {"primal-length"}) \cup
+                          (IF E.ny <= cur.nc THEN {} ELSE {"dual-length"}) \cup
+                          (IF E.sufbad = 0 THEN {} ELSE {"suffix-length"})
+            IN (live /\ cur.mode = "easy" /\ wrong = {}) \/ Bad(IF wrong = {} THEN "order" ELSE "easy-" \o (CHOOSE w \in wrong : TRUE))
 TCrash == /\ E.e \in {"Crash", "Hang", "Throw"} /\ Step /\ UNCHANGED <<cur, st, k>> /\ live' = FALSE
           /\ Bad(IF E.e = "Crash" THEN "crash-" \o (IF "cls" \in DOMAIN E THEN E.cls ELSE "harness") ELSE IF E.e = "Throw" THEN "throw-" \o (IF "kind" \in DOMAIN E THEN E.kind ELSE "unknown") ELSE "hang")
-TOther == /\ E.e \notin (Callbacks \cup {"Result", "Case", "Crash", "Hang", "Throw"})
+TOther == /\ E.e \notin (Callbacks \cup {"Result", "Case", "Crash", "Hang", "Throw", "Easy"})
           /\ Step /\ UNCHANGED <<cur, st, k>>
           /\ live' = (IF E.e = "End" THEN FALSE ELSE live)
           /\ CASE E.e = "Meta" -> TRUE
@@ -84,7 +93,7 @@ TOther == /\ E.e \notin (Callbacks \cup {"Result", "Case", "Crash", "Hang", "Thr
                [] OTHER -> Bad("event")
 
 Init == l = 1 /\ cur = NoCase /\ st = ProtoInit(0, 0) /\ k = 0 /\ live = FALSE
-Next == l <= Len(Lines) /\ (TCase \/ TEvent \/ TCrash \/ TOther)
+Next == l <= Len(Lines) /\ (TCase \/ TEvent \/ TEasy \/ TCrash \/ TOther)
 Spec == Init /\ [][Next]_vars
 Finished == (l = Len(Lines) + 1) => PrintT(<<"DONE", ToJson([n |-> Len(Lines)])>>)
 =============================================================================
